@@ -1,6 +1,7 @@
 package props
 
 import (
+	"bytes"
 	"fmt"
 	"strings"
 	"testing"
@@ -39,7 +40,32 @@ func genC02(t *rapid.T) *Case {
 		para := "<p>" + prose + "We went to the " + special + " yesterday " + prose + g.words(3) + "</p>\n"
 		c.HTML = strings.Replace(c.HTML, "<body>\n", "<body>\n"+para, 1)
 	}
+	if c.Kind == "" && rapid.IntRange(0, 11).Draw(t, "latin1") == 0 {
+		// byte-stream entry point: a page in ISO-8859-1 (declared as such) with French prose, so that
+		// the encoding is beyond reasonable doubt; a long run of ASCII may come first
+		c.Kind = "reader-latin1"
+		prose := "Le comité a décidé que la proposition serait adoptée par l'assemblée générale à la fin de l'année, après que les députés eurent étudié les conséquences de cette décision très controversée pour les régions où le chômage était déjà élevé. "
+		var head string
+		if rapid.Bool().Draw(t, "asciihead") {
+			head = "<style>" + strings.Repeat(".module-header .nav-item > a:hover { color: #336699; margin: 0 auto; padding: 4px 8px }\n", rapid.IntRange(50, 120).Draw(t, "cssrules")) + "</style>"
+		}
+		c.HTML = strings.Replace(c.HTML, `<meta charset="utf-8">`, `<meta charset="iso-8859-1">`+head, 1)
+		c.HTML = strings.Replace(c.HTML, "<body>\n", "<body>\n<p>"+strings.Repeat(prose, rapid.IntRange(2, 5).Draw(t, "proserep"))+g.words(3)+"</p>\n", 1)
+	}
 	return c
+}
+
+// latin1Bytes encodes a string whose runes are all below U+0100 as ISO-8859-1.
+func latin1Bytes(s string) []byte {
+	b := make([]byte, 0, len(s))
+	for _, r := range s {
+		if r < 256 {
+			b = append(b, byte(r))
+		} else {
+			b = append(b, '?')
+		}
+	}
+	return b
 }
 
 func checkC02(c *Case) (*Violation, caseInfo) {
@@ -49,6 +75,11 @@ func checkC02(c *Case) (*Violation, caseInfo) {
 		opts := c.Opts.Build()
 		out = guarded(0, func() (*distiller.Result, error) { return distiller.ApplyForReader(strings.NewReader(c.HTML), opts) })
 		info.Classes = append(info.Classes, "entry:ApplyForReader")
+	}
+	if c.Kind == "reader-latin1" {
+		opts := c.Opts.Build()
+		out = guarded(0, func() (*distiller.Result, error) { return distiller.ApplyForReader(bytes.NewReader(latin1Bytes(c.HTML)), opts) })
+		info.Classes = append(info.Classes, "entry:ApplyForReader-latin1")
 	}
 	if out.Panicked || out.Err != nil || out.Res == nil {
 		info.Skip = "apply-failed"
@@ -60,14 +91,18 @@ func checkC02(c *Case) (*Violation, caseInfo) {
 		return nil, info
 	}
 	res := out.Res
-	if c.Kind == "reader" {
-		// every word with non-ASCII characters must be a word of the (UTF-8) source
+	if c.Kind == "reader" || c.Kind == "reader-latin1" {
+		// every word with non-ASCII characters must be a word of the source (as decoded from its
+		// declared encoding)
 		srcWords := map[string]bool{}
 		for _, w := range strings.Fields(punctToSpace(innerTextOf(doc))) {
 			srcWords[w] = true
 		}
 		for _, w := range strings.Fields(punctToSpace(res.Text)) {
 			if rxToken.FindString(w) != w && !srcWords[w] {
+				if c.Kind == "reader-latin1" {
+					return violationf("C02 reader-misdecodes-latin1", "ApplyForReader emits the word %q, which is not a word of the ISO-8859-1 source (the page declares that charset and holds French prose)", w), info
+				}
 				return violationf("C02 reader-misdecodes-utf8", "ApplyForReader emits the word %q, which is not a word of the UTF-8 source (the page declares charset=utf-8 and holds one non-ASCII word)", w), info
 			}
 		}
@@ -120,7 +155,7 @@ func checkC02(c *Case) (*Violation, caseInfo) {
 		wordsHTML := visibleWordsOfOutput(res.Node)
 		for i, ws := range [][]string{wordsText, wordsHTML} {
 			for _, w := range ws {
-				if c.Kind == "reader" && rxToken.FindString(w) != w {
+				if (c.Kind == "reader" || c.Kind == "reader-latin1") && rxToken.FindString(w) != w {
 					continue // words of the prose paragraph: checked above against the source's words
 				}
 				if inner := rxToken.FindString(w); inner != w {
